@@ -19,6 +19,19 @@ Proof. exact wrapping_irrelevant. Qed.
 Theorem C14_tail_vertex_sign : forall edges e v1 v2, find (fun kv => Z.eqb (fst kv) (Z.abs e)) edges = Some (Z.abs e, (v1, v2)) ->
   tail_vertex edges e = Some (if (0 <? e)%Z then v1 else v2).
 Proof. exact tail_vertex_sign. Qed.
+(* in a face whose signed edges are chained head to tail, every step of the vertex cycle (cyclically) is a recorded mesh edge of the loop,
+   walked from its tail to its head as its sign says *)
+Theorem C14_cycle_steps_are_loop_edges : forall edges first loop, head_to_tail edges first loop = true ->
+  forall i e, nth_error loop i = Some e ->
+  exists a b, tail_vertex edges e = Some a /\ head_vertex edges e = Some b /\
+              nth_error (cell_cycle edges loop) i = Some (Some a) /\
+              (match nth_error loop (S i) with Some e' => tail_vertex edges e' | None => tail_vertex edges first end) = Some b.
+Proof. exact cycle_steps_are_loop_edges. Qed.
+Example C14_closed_loop_example :
+  let edges := [(1, (10, 11)); (2, (12, 11)); (3, (12, 10))]%Z in
+  closed_loop edges [1; -2; 3]%Z = true /\ cell_cycle edges [1; -2; 3]%Z = [Some 10; Some 11; Some 12]%Z /\ closed_loop edges [1; 2; 3]%Z = false.
+Proof. vm_compute. repeat split; reflexivity. Qed.
+
 (* vertices that belong to no face are dropped, and with them every edge that ends at one *)
 Theorem C14_orphans_dropped : forall vids edges cells,
   (forall v, In v (kept_vertices vids cells) <-> In v vids /\ in_some_cell cells v = true) /\
@@ -39,3 +52,4 @@ Print Assumptions C14_faces_roundtrip.
 Print Assumptions C14_wrapping_irrelevant.
 Print Assumptions C14_tail_vertex_sign.
 Print Assumptions C14_orphans_dropped.
+Print Assumptions C14_cycle_steps_are_loop_edges.
